@@ -128,6 +128,7 @@ type Finding struct {
 	Status    string `json:"status"` // "known" | "fixed"
 	Commit    string `json:"commit,omitempty"`
 	ID        string `json:"id,omitempty"`
+	Count     int    `json:"count,omitempty"` // number of identical constructs (same function, same expression text) covered; default 1
 }
 
 func loadFindings(path string) ([]Finding, error) {
